@@ -315,6 +315,108 @@ def body_darksky(case):
     return labels
 
 
+def body_darksky_integral(case):
+    """The dark-sky condition inside the acceptance integral of the target-mode geometry: with per-event inputs that pass
+    every other cut, the OPTICAL integral counts exactly the kept events whose own instant is dark (oracle: topocentric
+    Sun / Moon altitudes and vector phase angle at those instants), the RADIO integral counts all kept events (the
+    condition applies to the optical channel only), and switching the cut off can only add events. The object has thrown
+    and evaluated an EARLIER batch first: the same instants in another order (same number of kept events)."""
+    from astropy.time import Time, TimeDelta
+
+    from nuspacesim.simulation.geometry.region_geometry import RegionGeomToO
+
+    N, T = case["n"], case["T"]
+    t0 = Time(case["date"], format="isot", scale="utc")
+    if case.get("rel"):
+        which, frac, off = case["rel"]
+        tm = Time([t0 + TimeDelta(frac * T, format="sec")])
+        with quiet():
+            if which == "moon":
+                case = dict(case, moon_cut=float(body_altitude("moon", case, tm)[0]) + off)
+            elif which == "phase":
+                case = dict(case, phase_cut=min(max(float(moon_phase(tm)[0]) + 1.5 * off, 0.0), math.pi))
+            else:
+                case = dict(case, sun_cut=float(body_altitude("sun", case, tm)[0]) + off)
+    conf = _config(case)
+    labels = set()
+    fr = np.arange(N) / N
+    order = case["earlier"]
+    with quiet():
+        with cut("RegionGeomToO: earlier batch thrown and evaluated, then the batch under test"):
+            g = RegionGeomToO(conf)
+            if order:
+                g.throw(np.roll(fr, max(1, N // 3)) if order == "roll" else fr[::-1].copy())
+                k0 = len(np.asarray(g.pathLens()))
+                if k0:
+                    for m_ in ("Optical", "Radio"):
+                        g.mcintegral(np.ones(k0), np.full(k0, 0.5), np.full(k0, 0.5), 0.5, 1.0, 1.0, lenDec=np.zeros(k0), method=m_)
+                labels.add("earlier_batch_" + order)
+            g.throw(fr.copy())
+    keep = np.zeros(N, dtype=bool)
+    keep[np.where(np.asarray(g.horizon_mask))[0][np.asarray(g.volume_mask)]] = True
+    k = int(keep.sum())
+    if k == 0:
+        return labels | {"nothing_kept"}
+    times = (t0 + TimeDelta(fr * T, format="sec"))[keep]
+    with quiet():
+        sun = body_altitude("sun", case, times)
+        moon = body_altitude("moon", case, times)
+        ph = moon_phase(times)
+    sc, mc, pc = case["sun_cut"], case["moon_cut"], case["phase_cut"]
+    expect = (sun < sc) & ((moon < mc) | (ph > pc))
+    band = math.radians(0.02)
+    dontcare = (np.abs(sun - sc) < band) | (np.abs(moon - mc) < band) | (np.abs(ph - pc) < band)
+    res = {}
+    with quiet():
+        for m_ in ("Optical", "Radio", "Optical"):  # (the optical integral is read twice)
+            with cut(f"RegionGeomToO.mcintegral({m_})"):
+                out = g.mcintegral(np.ones(k), np.full(k, 0.5), np.full(k, 0.5), 0.5, 1.0, 1.0, lenDec=np.zeros(k), method=m_)
+            if m_ in res:
+                require(repr(tuple(out[:3])) == repr(res[m_]), f"the optical integral read a second time gives {tuple(out[:3])!r}, first {res[m_]!r}")
+            res[m_] = tuple(out[:3])
+        conf.detector.sun_moon.sun_moon_cuts = False
+        g_off = RegionGeomToO(conf)
+        g_off.throw(fr.copy())
+        with cut("RegionGeomToO.mcintegral(Optical, dark-sky cut switched off)"):
+            off_ = g_off.mcintegral(np.ones(k), np.full(k, 0.5), np.full(k, 0.5), 0.5, 1.0, 1.0, lenDec=np.zeros(k), method="Optical")
+    n_opt, n_rad, n_off = int(res["Optical"][2]), int(res["Radio"][2]), int(off_[2])
+    require(n_rad == k, f"the radio integral counts {n_rad} of {k} kept events although every event passes the trigger (the dark-sky condition applies to the optical channel only)")
+    require(n_off == k, f"with the dark-sky cut switched off the optical integral counts {n_off} of {k} kept events")
+    lo, hi = int((expect & ~dontcare).sum()), int((expect | dontcare).sum())
+    require(
+        lo <= n_opt <= hi,
+        f"the optical integral counts {n_opt} of {k} kept events; {lo}..{hi} of them are dark at their own instant (Sun below {math.degrees(sc):.3f} deg and Moon below {math.degrees(mc):.3f} deg or phase angle above {math.degrees(pc):.3f} deg){' - the object evaluated an earlier batch (' + order + ') first' if order else ''}",
+    )
+    if not dontcare.any():
+        # event by event through the value: all kept events carry a positive weight, so the optical integral is the radio
+        # integral restricted to the dark instants - compare the two sums through single-event differences
+        require(res["Optical"][0] <= res["Radio"][0] * (1 + 1e-12), f"the dark-sky cut ADDED acceptance: optical {res['Optical'][0]!r} > radio {res['Radio'][0]!r} for identical per-event inputs")
+        if lo == k:
+            require(abs(res["Optical"][0] - res["Radio"][0]) <= 1e-12 * abs(res["Radio"][0]), "all kept instants are dark but the optical and radio integrals differ for identical inputs")
+    # evaluated at EACH event's own time: a batch in which only event j passes the trigger counts 1 exactly when instant j is dark
+    trans = [int(i) for i in np.where(expect[1:] != expect[:-1])[0]]
+    picks = sorted(set([0, k - 1] + trans[:3] + [t + 1 for t in trans[:3]] + [int(j) % k for j in case.get("probe", [])]))
+    with quiet():
+        for j in picks:
+            if dontcare[j]:
+                continue
+            trig = np.zeros(k)
+            trig[j] = 1.0
+            with cut("RegionGeomToO.mcintegral(Optical, one event above threshold)"):
+                nj = int(g.mcintegral(trig, np.full(k, 0.5), np.full(k, 0.5), 0.5, 1.0, 1.0, lenDec=np.zeros(k), method="Optical")[2])
+            require(
+                nj == int(expect[j]),
+                f"only kept event {j} of {k} passes the trigger; it is {'dark' if expect[j] else 'NOT dark'} at its own instant (Sun {math.degrees(sun[j]):.3f} deg / limit {math.degrees(sc):.3f}, Moon {math.degrees(moon[j]):.3f} / {math.degrees(mc):.3f}, phase {math.degrees(ph[j]):.3f} / {math.degrees(pc):.3f}) but the optical integral counts {nj} event(s){' - the object evaluated an earlier batch (' + order + ') first' if order else ''}",
+            )
+            labels.add("single_event_probe")
+    if 0 < lo and hi < k:
+        labels.add("mixed_mask_among_kept")
+    if expect.any() != expect.all():
+        labels.add("mixed_mask")
+    labels.add("kept_events")
+    return labels
+
+
 def body_darksky_blocks(case):
     """k*4096+1 instants: the mask is evaluated at EVERY instant. Oracle: cyclic-shift equivariance of the array call
     (each shift puts a different instant last / at a block edge) plus per-instant scalar calls at the edges."""
@@ -486,6 +588,24 @@ SUBCHECKS = [
         lambda labels: "mixed_mask" in labels,
         {"quick": 160, "thorough": 4000},
         doc="boolean formula on topocentric Sun/Moon altitudes and vector phase angle; array == per-instant; monotone in thresholds",
+        tolerances={"angle_band_deg": 0.02},
+        shrink=False,
+    ),
+    SubCheck(
+        "dark_sky_in_integral",
+        st.fixed_dictionaries(
+            {
+                **dark_common,
+                "n": st.sampled_from([24, 48, 96, 197]),
+                "rel": st.one_of(st.none(), *[st.tuples(st.sampled_from(["sun", "sun", "moon", "phase"]), st.floats(0.47, 0.53), st.floats(math.radians(-0.3), math.radians(0.3))).map(list)] * 4),
+                "earlier": st.sampled_from([None, "roll", "roll", "reverse"]),
+                "probe": st.lists(st.integers(0, 1000), min_size=1, max_size=3),
+            }
+        ),
+        body_darksky_integral,
+        lambda labels: "mixed_mask" in labels and "kept_events" in labels,
+        {"quick": 240, "thorough": 6000},
+        doc="dark-sky condition inside RegionGeomToO.mcintegral: optical count == kept events dark at their OWN instant (independent ephemeris oracle), radio count == all kept events, cut off == all; after an earlier batch (same instants, other order) thrown and evaluated on the same object",
         tolerances={"angle_band_deg": 0.02},
         shrink=False,
     ),
